@@ -4,6 +4,7 @@ open XotModel.Props
 #print axioms C17_inside
 #print axioms C17_errors_content
 #print axioms C17_ordered
+#print axioms C17_boundaries
 #print axioms C17_span_element_start
 #print axioms C17_span_element_end
 #print axioms C17_span_attribute
